@@ -104,6 +104,19 @@ PROPS["C03"] = {
     "release_filter": r"^(decompress|pk_from_bytes|sk_from_bytes|sig_from_bytes) ",
 }
 
+PROPS["C09"] = {
+    "level": "proof",
+    "technique": "Lean 4 theorems on the integer cores of samplerz.rs (RCDT = specification table and exact output law of BaseSampler, ApproxExp core free of underflow for all z < 2^63, BerExp comparison total on 7 bytes) + bit-exact differential execution of the float glue (Lean Float vs Rust f64) and an independent re-implementation of the specification's blocks",
+    "rule": "ops = base_sampler at every RCDT boundary r-1, r, r+1 and on random 72-bit values with forced leading zeros; approx_exp / ber_exp over x in [0, 100] (multiples of ln 2 and just below) and ccs in [sigmin/sigmax, 1] with ties forced on the first k = 0..7 random bytes; sampler_z on the specification's known answers, random streams with centres at integers / half-integers / large / negative, widths at sigmin, sigmax and between, keygen's parameters, forced first-trial ties; two centres beyond the i16 range (known finding F7); distinct by op line; every op judged against the harness's own BaseSampler/ApproxExp/BerExp/SamplerZ",
+    "exhaustive": {"quick": (False, ""), "thorough": (False, "")},
+    "level_text": "Machine-checked: the RCDT and polynomial constants in the source are the specification's; base(u) > k iff u < RCDT[k] for every u (the exact output law under uniform bytes) and base(u) <= 18; the Horner recurrence of ApproxExp never underflows for any z < 2^63 in either build mode; the BerExp comparison reads exactly the 7 bytes it is given for every threshold (no 2^-56 panic) and is 'not below' on a tie. The floating-point glue and SamplerZ's loop are executable models compared bit-for-bit with the Rust code. NOT decided: closeness of the output law to D_{Z,mu,sigma'} beyond the exact law of the base sampler, and almost-sure termination.",
+    "level_note": "Trusted: Lean kernel; Lean Float = IEEE binary64 as Rust f64 for + - * / floor (executed, not proved); rand's gen::<[u8;N]> = N next_u32 calls (one byte each) as modelled by the stream generator. Known finding F7 (centres beyond the i16 range) is listed in known_findings.json.",
+    "trusted_base": TB_COMMON + ["IEEE-754 double arithmetic: Lean Float and Rust f64 agree on + - * / floor and on saturating float->integer casts (checked per run, not proved)"],
+    "assumptions": ["|floor(mu)| <= 32767 - 19 (F7)"],
+    "not_proved": ["statistical closeness of sampler_z to the discrete Gaussian; termination with probability 1; error analysis of approx_exp"],
+    "release_too": True,
+}
+
 # properties not (yet) claimed, with the reason shown in MANIFEST.not_applicable
 NOT_YET = {k: "check not built yet in this session (planned in DESIGN.md §7/§8); not claimed until its check passes" for k in
-           ["C01", "C04", "C05", "C08", "C09", "C10", "C13", "C15", "C16", "C17"]}
+           ["C01", "C04", "C05", "C08", "C10", "C13", "C15", "C16", "C17"]}
